@@ -43,8 +43,8 @@ def obligations(ctx):
     obs = [Ob('tiny/maxDomain%d' % m, ob_tiny, (m,)) for m in (0, 1, 2)]
     # transforms (prop='C18': lifetime events such as allocator mismatches count)
     for kind in ('ntt', 'intt'):
-        for (k, s_, d, ncols, dstmode, buf) in C03.classes(ctx, kind):
-            obs.append(Ob('%s/s%d/d%d/c%d/%s/%s' % (k, s_, d, ncols, dstmode, 'buf' if buf else 'nobuf'), wrap(ntt.ob), ('C18', k, s_, d, ncols, dstmode, buf), weight=(1 << max(d, 0)) * max(ncols, 1)))
+        for i, (k, s_, d, ncols, dstmode, buf) in enumerate(C03.classes(ctx, kind)):
+            obs.append(Ob('%s/s%d/d%d/c%d/%s/%s' % (k, s_, d, ncols, dstmode, 'buf' if buf else 'nobuf'), wrap(ntt.ob), ('C18', k, s_, d, ncols, dstmode, buf), dict(nthreads=(1, 3, 0, 2)[i % 4]), weight=(1 << max(d, 0)) * max(ncols, 1)))
     for (a, b, ncols, inplace, buf) in C05.classes(ctx):
         obs.append(Ob('ext/N%d/Next%d/c%d/%s/%s' % (1 << a, 1 << b, ncols, 'inplace' if inplace else 'distinct', 'buf' if buf else 'nobuf'), wrap(ntt.ob), ('C18', 'ext', a, b, ncols, 'same' if inplace else 'other', buf), dict(a=a), weight=(1 << b) * ncols))
     for o in C19.obligations(ctx):
